@@ -346,6 +346,22 @@ Definition run (req : sexp) : sexp :=
              L (map (fun kv => L [A (fst kv); match snd kv with EFile c => L [A "file"; A c] | ELink t => L [A "link"; A t] end]) fs')]
       | None => A "bad-request"
       end
+  (* the same with the temp file on another file system (copy through the links, IOLinks.serialize_to_lx; 40 = the
+     kernel's limit on the length of a chain of links) *)
+  | L [A "destlinksx"; L entries; A name; A text] =>
+      let px_entry (x : sexp) : option (string * entry) :=
+        match x with
+        | L [A n; L [A "file"; A c]] => Some (n, EFile c)
+        | L [A n; L [A "link"; A t]] => Some (n, ELink t)
+        | _ => None
+        end in
+      match px_list px_entry entries with
+      | Some fs =>
+          let '(fs', ok) := serialize_to_lx 40 fs name "<tmp>" [text] NoFault in
+          L [A (if ok then "ok" else "failed");
+             L (map (fun kv => L [A (fst kv); match snd kv with EFile c => L [A "file"; A c] | ELink t => L [A "link"; A t] end]) fs')]
+      | None => A "bad-request"
+      end
   | L [A "destpath"; A name] =>
       match dest_path name with Some p => L [A "some"; A p] | None => L [A "none"] end
   | L [A "provnspec"; A text] =>
